@@ -377,7 +377,7 @@ int main(int argc, char **argv)
         }
         return ctx.finish();
     }
-    const QList<int> sizes = { 0, 1, 4095, 4096, 4097, 12289 };
+    const QList<int> sizes = ctx.thorough() ? QList<int> { 0, 1, 2, 4095, 4096, 4097, 8191, 8192, 8193, 12288, 12289, 20481, 40961 } : QList<int> { 0, 1, 4095, 4096, 4097, 12289 };
     for (int size : sizes) {
         const int nblocks = (size + 4095) / 4096;
         for (int pattern = 0; pattern < 3; ++pattern) {
@@ -394,7 +394,7 @@ int main(int argc, char **argv)
                         if (ctx.mine()) {
                             Case c { size, pattern, f, idx, bool(hash) };
                             evalCase(ctx, c);
-                            if (size == 12289 && idx == 3 && ctx.samples.size() < 5) {
+                            if (size == 12289 && idx == 3 && ctx.samples.size() < 5) {   // (a 4-block transfer)
                                 ctx.sample(caseJson(c));
                             }
                         }
